@@ -115,6 +115,8 @@ class Report:
             cov["samples"] = ["(no sample recorded)"]
         cov["known_finding_hits"] = dict(self.known_hits)
         cov["harness_errors"] = len(self.harness_errors)
+        if self.harness_errors:
+            cov["harness_error_messages"] = [m[-600:] for m in self.harness_errors[:5]]
         ev = {
             "property_id": self.prop,
             "tier": self.tier,
